@@ -151,6 +151,9 @@ pub enum CallRes {
 pub struct Call {
     pub step: u64,
     pub end_step: Option<u64>,
+    pub ms: u64,
+    pub end_ms: Option<u64>,
+    pub outcome: Option<Outcome>,
     pub actor: usize,
     pub op: Option<usize>,
     pub kind: CallKind,
@@ -273,6 +276,11 @@ pub struct OpRec {
     /// result of is_closed() sampled by the actor right before invoking (get ops)
     pub closed_at_invoke: bool,
     pub fault_used: bool,
+    /// Pending polls of the actor when the op was invoked / when it made its first call
+    pub pend_base: u32,
+    pub pend_first_call: Option<u32>,
+    /// virtual time of the first poll that left the call waiting for a slot (its timer starts there)
+    pub wait_start_ms: Option<u64>,
     /// step of the resize for which this waiting get counts as admitted earlier
     pub exempt_resize: Option<u64>,
     /// C03: books before the call (snapshot, idle ids, status)
@@ -418,6 +426,9 @@ impl MWorld {
         self.calls.push(Call {
             step,
             end_step: Some(step),
+            ms: now_ms(),
+            end_ms: Some(now_ms()),
+            outcome: None,
             actor,
             op,
             kind: CallKind::Detach,
@@ -470,6 +481,9 @@ impl MWorld {
             cancelled_by_controller: false,
             closed_at_invoke: false,
             fault_used: false,
+            pend_base: if actor == CONTROLLER { 0 } else { engine::pending_count(actor) },
+            pend_first_call: None,
+            wait_start_ms: None,
             exempt_resize: None,
             snap0: None,
         };
@@ -626,6 +640,9 @@ fn gate_call(kind: CallKind, obj: Option<u32>, metrics: Option<MSeen>) -> u32 {
         w.calls.push(Call {
             step,
             end_step: None,
+            ms: now_ms(),
+            end_ms: None,
+            outcome: Some(outcome),
             actor,
             op,
             kind,
@@ -636,6 +653,9 @@ fn gate_call(kind: CallKind, obj: Option<u32>, metrics: Option<MSeen>) -> u32 {
         });
         let ci = w.calls.len() - 1;
         if let Some(op) = op {
+            if w.ops[op].calls.is_empty() && actor != CONTROLLER {
+                w.ops[op].pend_first_call = Some(engine::pending_count(actor));
+            }
             w.ops[op].calls.push(ci);
             // deadlines of the phase that starts now
             let eff = w.ops[op].eff;
@@ -677,6 +697,7 @@ fn gate_call(kind: CallKind, obj: Option<u32>, metrics: Option<MSeen>) -> u32 {
             w.gates[g as usize].state = GState::Resolved;
             w.calls[ci].res = CallRes::Panic;
             w.calls[ci].end_step = Some(step);
+            w.calls[ci].end_ms = Some(now_ms());
             w.cnt.fault(&format!("{}_panic_in_call", kind_family(kind)));
             crate::moracle::on_call_end(w, ci);
         }
@@ -784,6 +805,7 @@ fn gate_poll<T: GateOut>(gate: u32, waker: Option<&Waker>) -> GateAct<T> {
         let kind = w.calls[ci].kind;
         let okind = g.outcome.kind;
         w.calls[ci].end_step = Some(step);
+        w.calls[ci].end_ms = Some(now);
         match okind {
             OKind::Ok => {
                 w.calls[ci].res = CallRes::Ok;
@@ -851,6 +873,7 @@ impl<T> Drop for GateFut<T> {
                 let ci = g.call;
                 w.calls[ci].res = CallRes::Dropped;
                 w.calls[ci].end_step = Some(current_step());
+                w.calls[ci].end_ms = Some(now_ms());
                 let kind = w.calls[ci].kind;
                 engine::log_event(&[124, gate as u64]);
                 trace!("  {} future dropped unresolved", kind.name());
@@ -1268,6 +1291,9 @@ pub fn run_op(actor: usize, idx: usize, op: Op, pool: &mut Option<SPool>) {
                         w.calls.push(Call {
                             step,
                             end_step: Some(step),
+                            ms: now_ms(),
+                            end_ms: Some(now_ms()),
+                            outcome: None,
                             actor,
                             op: Some(opi),
                             kind: CallKind::Pred,
